@@ -23,6 +23,12 @@ func (k KwDesc) Value() any {
 		return strLeaf{k.S}
 	case "zerostringer":
 		return strLeaf{}
+	case "sstringer":
+		return strStringer(k.S)
+	case "istringer":
+		return intStringer(len(k.S) + 1)
+	case "plainnamed":
+		return plainNamed(k.S)
 	case "int":
 		return 42
 	}
@@ -38,6 +44,12 @@ func (k KwDesc) Accepted() (string, bool) {
 		if k.S != "" {
 			return k.S, true
 		}
+	case "sstringer":
+		if k.S != "" {
+			return "attr:" + k.S, true // what its String method says, not the underlying string
+		}
+	case "istringer":
+		return "d" + itoa(len(k.S)+1), true
 	}
 	return "", false
 }
@@ -398,7 +410,9 @@ func genKw(t *rapid.T) KwDesc {
 	case 1:
 		return KwDesc{K: "stringer", S: rapid.SampledFrom([]string{"sk", "Ключ"}).Draw(t, "sk")}
 	case 2:
-		return KwDesc{K: rapid.SampledFrom([]string{"zerostringer", "nil", "int"}).Draw(t, "kwbad")}
+		return KwDesc{K: rapid.SampledFrom([]string{"zerostringer", "nil", "int", "plainnamed"}).Draw(t, "kwbad"), S: "pn"}
+	case 3:
+		return KwDesc{K: rapid.SampledFrom([]string{"sstringer", "istringer"}).Draw(t, "kwnamed"), S: rapid.SampledFrom([]string{"cn", "ou", "x y"}).Draw(t, "nk")}
 	}
 	return KwDesc{K: "str", S: rapid.SampledFrom([]string{"cn", "person", "k", "two words", "é", " ", "\t", "\u00a0", " k ", "K"}).Draw(t, "kw")}
 }
